@@ -2,8 +2,8 @@
 from corr import corr_assemble, corr_terms, corr_ghost
 import solversearch as SS
 
-MODULES = ["PyFV.Props.C04"]
-TRANSLATORS = {"T-lim": "python3 harness/translate/tlim.py lean/PyFV/Gen/Limiters.lean"}
+MODULES = ["PyFV.Props.C04", "PyFV.Props.GenEqBC"]
+TRANSLATORS = {"T-lim": "python3 harness/translate/tlim.py lean/PyFV/Gen/Limiters.lean", "T-bc": "python3 harness/translate/tbc.py lean/PyFV/Gen/BCGen.lean"}
 
 
 def corr(rng, tier):
